@@ -56,6 +56,10 @@ template<int OP> FM_INLINE i64 un_body(i64 a) noexcept
   else if constexpr (OP==U_SIN_ANGLE_FX) return sin_angle(fx(a)).v;
   else if constexpr (OP==U_COS_ANGLE_FX) return cos_angle(fx(a)).v;
   else if constexpr (OP==U_TAN_ANGLE_FX) return tan_angle(fx(a)).v;
+  else if constexpr (OP==U_ADDEQ_SELF) { fixed_t x{fx(a)}; x += x; return x.v; }
+  else if constexpr (OP==U_SUBEQ_SELF) { fixed_t x{fx(a)}; x -= x; return x.v; }
+  else if constexpr (OP==U_MULEQ_SELF) { fixed_t x{fx(a)}; x *= x; return x.v; }
+  else if constexpr (OP==U_DIVEQ_SELF) { fixed_t x{fx(a)}; x /= x; return x.v; }
   else return 0;
   }
 template<int OP> FM_NOINLINE i64 un_call(i64 a) noexcept { return un_body<OP>(a); }
@@ -250,7 +254,13 @@ template<int OP, int KIND, int P> FM_INLINE i64 shape_body(i64 a, i64 b) noexcep
   {
   if constexpr (KIND==SH_VK) return addsub<OP>(a, KS[P]);
   else if constexpr (KIND==SH_KV) return addsub<OP>(KS[P], a);
-  else if constexpr (KIND==SH_SELF) return addsub<OP>(a, a);
+  else if constexpr (KIND==SH_SELF)
+    {
+    // compound forms use the SAME object on both sides, so that an implementation reading its operand after writing the result is exposed
+    if constexpr (OP==B_ADDEQ) { fixed_t x{fx(a)}; x += x; return x.v; }
+    else if constexpr (OP==B_SUBEQ) { fixed_t x{fx(a)}; x -= x; return x.v; }
+    else return addsub<OP>(a, a);
+    }
   else
     {
     if( guard_test<P>(a,b) )
@@ -432,6 +442,102 @@ FM_EXPORT int fm_shape_count(void) { return static_cast<int>(SHAPES.size()); }
 FM_EXPORT void fm_shape_get(int idx, fm_shape_info* out) { *out = SHAPES[static_cast<size_t>(idx)].info; }
 FM_EXPORT i64 fm_shape_call(int idx, i64 a, i64 b) { return SHAPES[static_cast<size_t>(idx)].call(a,b); }
 FM_EXPORT void fm_shape_batch(int idx, const i64* a, const i64* b, size_t n, i64* out) { SHAPES[static_cast<size_t>(idx)].loop(a,b,n,out); }
+
+// ---- argument(s) known to the optimiser: the same entry point instantiated with compile-time-constant arguments
+namespace {
+constexpr i64 CK1[] = { 0, 1, -1, 65536, -65536, 131072, 3*65536, 98304, 32768, 39322, -39322, 90*65536, 205887, 102944, 51472, 1ll<<32, 1ll<<46, (1ll<<47)-1,
+                        -(1ll<<40), 0x7ffffffffffffffell, -0x7ffffffffffffffell, 0x7fffffffffffffffll, -0x7fffffffffffffffll, 12345678901ll };
+constexpr int NCK1 = sizeof(CK1)/sizeof(CK1[0]);
+constexpr i64 CK2[] = { 0, 65536, -65536, 3, 3*65536+7, -(1ll<<33), (1ll<<46)+5, 0x7ffffffffffffffell, -0x7ffffffffffffffell, 1ll<<62 };
+constexpr int NCK2 = sizeof(CK2)/sizeof(CK2[0]);
+template<int OP, int KI> FM_NOINLINE i64 un_constarg() noexcept { return un_body<OP>(CK1[KI]); }
+template<int OP, int KI, int KJ> FM_NOINLINE i64 bin_constarg() noexcept { return bin_body<OP>(CK2[KI], CK2[KJ]); }
+template<int... I> constexpr auto un_constarg_table(std::integer_sequence<int,I...>) noexcept
+  { return std::array<i64(*)(),sizeof...(I)>{{ &un_constarg<I / NCK1, I % NCK1>... }}; }
+template<int... I> constexpr auto bin_constarg_table(std::integer_sequence<int,I...>) noexcept
+  { return std::array<i64(*)(),sizeof...(I)>{{ &bin_constarg<I / (NCK2*NCK2), (I / NCK2) % NCK2, I % NCK2>... }}; }
+constexpr auto UN_CONSTARG = un_constarg_table(std::make_integer_sequence<int, U_COUNT * NCK1>{});
+constexpr auto BIN_CONSTARG = bin_constarg_table(std::make_integer_sequence<int, B_COUNT * NCK2 * NCK2>{});
+
+// ---- comparisons of a result against constants evaluated IN THE SAME inlined scope as the call (a wrong optimiser hint
+//      such as __builtin_unreachable / __builtin_assume inside the library folds these, although the stored value is right)
+constexpr i64 CMPK[] = { 0, 1, -1, 65536, -65536, 0x7ffffffffffffffell, -0x7ffffffffffffffell, 0x7fffffffffffffffll, -0x7fffffffffffffffll };
+constexpr int NCMPK = sizeof(CMPK)/sizeof(CMPK[0]);
+template<int... I> FM_INLINE u64 cmpmask_of(fixed_t y, std::integer_sequence<int,I...>) noexcept
+  {
+  u64 m = 0;
+  ((m |= (static_cast<u64>(y < fx(CMPK[I])) << (3*I)) | (static_cast<u64>(y == fx(CMPK[I])) << (3*I+1)) | (static_cast<u64>(y > fx(CMPK[I])) << (3*I+2))), ...);
+  m |= static_cast<u64>(isnan(y)) << (3*NCMPK);
+  m |= static_cast<u64>(y >= fx(0)) << (3*NCMPK+1);
+  m |= static_cast<u64>(y != fx(0)) << (3*NCMPK+2);
+  return m;
+  }
+template<int OP> FM_NOINLINE u64 un_cmpmask(i64 a) noexcept { return cmpmask_of(fx(un_body<OP>(a)), std::make_integer_sequence<int,NCMPK>{}); }
+template<int OP> FM_NOINLINE u64 bin_cmpmask(i64 a, i64 b) noexcept { return cmpmask_of(fx(bin_body<OP>(a, b)), std::make_integer_sequence<int,NCMPK>{}); }
+template<int OP> struct UnMask { static u64 call(i64 a) { return un_cmpmask<OP>(a); } };
+template<int OP> struct BinMask { static u64 call(i64 a, i64 b) { return bin_cmpmask<OP>(a, b); } };
+}
+FM_EXPORT i64 fm_un_constarg(int op, int ki) { return UN_CONSTARG[static_cast<size_t>(op * NCK1 + ki)](); }
+FM_EXPORT i64 fm_bin_constarg(int op, int ki, int kj) { return BIN_CONSTARG[static_cast<size_t>((op * NCK2 + ki) * NCK2 + kj)](); }
+FM_EXPORT i64 fm_constarg_value(int binary, int ki) { return binary ? CK2[ki] : CK1[ki]; }
+FM_EXPORT int fm_constarg_count(int binary) { return binary ? NCK2 : NCK1; }
+FM_EXPORT u64 fm_un_cmpmask(int op, i64 a) { return dispatch<UnMask,u64>(op, std::make_integer_sequence<int,U_COUNT>{}, a); }
+FM_EXPORT u64 fm_bin_cmpmask(int op, i64 a, i64 b) { return dispatch<BinMask,u64>(op, std::make_integer_sequence<int,B_COUNT>{}, a, b); }
+FM_EXPORT i64 fm_cmpmask_const(int i) { return CMPK[i]; }
+FM_EXPORT int fm_cmpmask_count(void) { return NCMPK; }
+
+// two-step histories INSIDE one function body: the same object is converted / updated twice with a modification in between.
+// A function that reads through 'this' or a reference but promises otherwise (gnu::const / gnu::pure) lets the optimiser
+// reuse the first result or drop an update; single calls cannot show that.
+namespace {
+template<typename T> FM_NOINLINE void seq_conv(i64 a, i64 b, u64* r1, u64* r2) noexcept
+  {
+  fixed_t x { fx(a) };
+  T v1 { static_cast<T>(x) };
+  x = fx(b);
+  T v2 { static_cast<T>(x) };
+  *r1 = to_bits<T>(v1); *r2 = to_bits<T>(v2);
+  }
+template<int OP> FM_INLINE void compound_step(fixed_t & x, fixed_t y) noexcept
+  {
+  if constexpr (OP==0) x += y; else if constexpr (OP==1) x -= y; else if constexpr (OP==2) x *= y; else x /= y;
+  }
+template<int OP1, int OP2> FM_NOINLINE i64 seq_compound(i64 a, i64 b, i64 c) noexcept
+  {
+  fixed_t x { fx(a) };
+  compound_step<OP1>(x, fx(b));
+  compound_step<OP2>(x, fx(c));
+  return x.v;
+  }
+}
+FM_EXPORT void fm_seq_conv(int type, i64 a, i64 b, u64* r1, u64* r2)
+  {
+  with_any_type(type, [&](auto t) -> int { seq_conv<decltype(t)>(a, b, r1, r2); return 0; });
+  }
+FM_EXPORT i64 fm_seq_compound(int op1, int op2, i64 a, i64 b, i64 c)
+  {
+  return with_c4(op1, [&](auto o1){ return with_c4(op2, [&](auto o2) -> i64 { return seq_compound<decltype(o1)::value, decltype(o2)::value>(a, b, c); }); });
+  }
+
+// values of the compiled table functions observed DURING static initialisation of this translation unit, which is linked
+// before fixed_math.cc: a table that is filled by a dynamic initialiser is still empty here
+namespace {
+constexpr int EARLY_N = 14;
+i64 early_value(int i) noexcept
+  {
+  switch(i)
+    {
+    case 0: return sin_angle_aprox(30).v; case 1: return cos_angle_aprox(60).v; case 2: return sin_angle_aprox(-90).v; case 3: return cos_angle_aprox(1234567).v;
+    case 4: return sqrt_aprox(as_fixed(131072)).v; case 5: return sqrt_aprox(as_fixed(1ll<<36)).v; case 6: return atan_index_aprox(as_fixed(65536)).v; case 7: return atan_index_aprox(as_fixed(-30000)).v;
+    case 8: return sin_angle_tab(90).v; case 9: return cos_angle_tab(0).v; case 10: return tan_tab(64).v; case 11: return square_root_tab(255);
+    case 12: return hypot_aprox(as_fixed(3*65536), as_fixed(4*65536)).v; default: return atan_aprox(as_fixed(98304)).v;
+    }
+  }
+struct early_probe_t { i64 v[EARLY_N]; early_probe_t() noexcept { for( int i = 0; i < EARLY_N; ++i ) v[i] = early_value(i); } };
+early_probe_t early_probe;
+}
+FM_EXPORT i64 fm_early(int idx, int now) { return now ? early_value(idx) : early_probe.v[idx]; }
+FM_EXPORT int fm_early_count(void) { return EARLY_N; }
 
 FM_EXPORT int fm_probe_sqrt_algo(void)
   {
